@@ -1,0 +1,24 @@
+//go:build verif
+
+package postscript
+
+import "io"
+
+// VerifRawReads is a verification hook (only built with the tag "verif").
+// It drives the scanner's buffered byte source directly: readByteRaw is
+// called n times, and for each call the byte (or -1), the error returned and
+// the value of the scanner's err field afterwards are reported.
+func VerifRawReads(r io.Reader, n int) (vals []int, errs []error, fields []error) {
+	s := newScanner(r)
+	for i := 0; i < n; i++ {
+		b, err := s.readByteRaw()
+		if err != nil {
+			vals = append(vals, -1)
+		} else {
+			vals = append(vals, int(b))
+		}
+		errs = append(errs, err)
+		fields = append(fields, s.err)
+	}
+	return vals, errs, fields
+}
